@@ -48,9 +48,24 @@ def unit_ok(u):
         return True
     if re.search(r"\s", u) or ".." in u or u.isdigit() or u[0] in ".:" or u[-1] in ".:":
         return False
-    if (u[0] == "[" and u[-1] == "]") or (u[0] == "(" and u[-1] == ")"):
+    if enclosed(u):
         return False
     return True
+
+
+def enclosed(u):
+    """Is the whole text enclosed by one matching pair of brackets ('[ohm.m]', '((m))')?  '(m3)/(m3)' is not."""
+    if len(u) < 2 or (u[0], u[-1]) not in (("[", "]"), ("(", ")")):
+        return False
+    depth = 0
+    for i, ch in enumerate(u):
+        if ch == u[0]:
+            depth += 1
+        elif ch == u[-1]:
+            depth -= 1
+            if depth == 0:
+                return i == len(u) - 1
+    return False
 
 
 def unit(rng, interior=True):
@@ -60,7 +75,8 @@ def unit(rng, interior=True):
             u = ""
         elif cls < 0.6:
             u = rng.choice(["M", "FT", "m", "gAPI", "US/F", "OHMM", "ohm.m", "K/M3", "%", "V/V", "degC", "g/cm3", "lbf", "hh:mm",
-                            "1:100", "mm/dd/yy", "0.1in", "1000lbf", "us/ft", "API", "m3/m3", "B/E", "DEG", "psi.a", "UNIT", "unit"])
+                            "1:100", "mm/dd/yy", "0.1in", "1000lbf", "us/ft", "API", "m3/m3", "B/E", "DEG", "psi.a", "UNIT", "unit",
+                            "(m3)/(m3)", "[a][b]", "(x)y(z)"])
         elif cls < 0.85:
             u = _word(rng, LETTERS + DIGITS + UNIT_PUNCT, 1, 7)
         else:
